@@ -211,9 +211,10 @@ def u_and_f_signature(ctx: Ctx):
         ok = bool(comps) and all(
             c[3][0][2][0][0] == "cmp" and c[3][0][2][0][1] == ("in",) and c[3][0][2][0][2][0] == c[3][0][0][1][0]
             and c[2] == (c[3][0][0][1][0], c[3][0][0][1][1]) for c in comps)
-        ctx.ob(f"SIG:u_and_f:{tag}:argument-filters", ok, prog.node_where(cf.module, prog.closures[cid][0].node),
+        ctx.ob(f"SIG:u_and_f:{tag}:argument-filters", ok if comps else None, prog.node_where(cf.module, prog.closures[cid][0].node),
                "states / choices / value-function arguments are selected by membership (k in <names>) and passed unchanged"
-               if ok else "an argument filter of u_and_f is not 'k in <names>' or changes the values", lhs=str(len(comps)))
+               if ok else "an argument filter of u_and_f is not 'k in <names>' or changes the values" if comps else
+               "the argument filters of u_and_f were not found (selection written in another way)", lhs=str(len(comps)))
     ctx.floor("signature_lists", 1)
 
 
